@@ -2,7 +2,20 @@
 import json, os
 from verifkit import read_lines, REPO, VERIF
 
-REQUIRED = []
+REQUIRED = ["DaeVerif.C15.Props." + n for n in (
+    "index_consistent",
+    "alive_set_invariant",
+    "min_policy_returns_unbeaten_alive",
+    "getMin_respects_exclusion",
+    "getMin_excluding_best_is_minimum",
+    "random_returns_alive",
+    "fixed_returns_ith",
+    "select_returns_alive_of_tried_type",
+    "excluded_never_returned_unless_fixed_or_last_resort",
+    "no_alive_error_iff_all_tried_empty",
+    "select_min_is_unbeaten",
+    "select_mem_selectAll",
+)]
 
 
 def compare(op, im, mo):
